@@ -40,6 +40,15 @@ class Flow:
                 if val[0] == 'tuple' and s['field'] < len(val[1]): self.bind(s['pat'], val[1][s['field']], env)
                 else: self.bind(s['pat'], ('proj', val, s['field']), env)
             return True
+        if p['k'] == 'Leaf' and 'adt' in p:
+            # `let Args { input, undirected, .. } = args;`: each binding is that field of the value
+            adt = getattr(self.c, 'adts', {}).get(canon(p['adt']))
+            if adt is None or len(adt['variants']) != 1: return False
+            fs = adt['variants'][0]['fields']
+            for s in p['subs']:
+                if s['field'] >= len(fs): return False
+                self.bind(s['pat'], ('field', val, fs[s['field']]['name']), env)
+            return True
         if p['k'] == 'Variant' and canon(p.get('adt', '')) == 'std::option::Option' and p['variant'] == 'Some' and p['subs']:
             # the payload of a Some: the same value `.unwrap()` yields
             return self.bind(p['subs'][0]['pat'], val[1] if val[0] == 'some' else ('some_payload', val), env)
@@ -130,6 +139,21 @@ class Flow:
                         env2 = dict(env); self.bind(a['pat'], sv, env2)
                         return self.ev(a['body'], env2, depth)
                     break
+            # `match opt { Some(p) => A, None => B }` (either order, `_` for None): the same as `if let Some(p) = opt { A } else { B }`
+            if len(e['arms']) == 2 and all(a.get('guard') is None for a in e['arms']):
+                some = none = None
+                for a in e['arms']:
+                    p = a['pat']
+                    while p['k'] in ('Deref', 'DerefPattern'): p = p['sub']
+                    if p['k'] == 'Variant' and canon(p.get('adt', '')) == 'std::option::Option' and p['variant'] == 'Some' and p['subs']: some = (a, p)
+                    elif (p['k'] == 'Variant' and canon(p.get('adt', '')) == 'std::option::Option' and p['variant'] == 'None') or p['k'] == 'Wild': none = a
+                if some is not None and none is not None:
+                    b = self.fresh()
+                    env2 = dict(env)
+                    if self.bind(some[1]['subs'][0]['pat'], b, env2):
+                        th = self.ev(some[0]['body'], env2, depth); el = self.ev(none['body'], env, depth)
+                        if el == ('none',) and th[0] == 'some': return ('optmap', sv, b, th[1])
+                        return ('optcase', sv, b, th, el)
             return ('unknown', 'Match')
         if k == 'If':
             c = e['cond']
